@@ -6,6 +6,7 @@
 //	skip     SchemaDiff of the sqlite/mysql/postgres DefaultDiff with DiffSkipChanges(K), all K
 //	reuse    sequences of SchemaDiff calls that share option values (DiffSkipChanges, DiffNormalized), 3 dialects
 //	inspect  sqlite InspectSchema / InspectRealm with kept Exclude values, on a database with tables main, secret
+//	policy   the cmdapi diff policy objects (project file diff { skip {} }) kept and reused over a sequence of diffs (CLI hook)
 //	cli      the real atlas binary: schema inspect/apply --exclude, --env with diff.skip, on SQLite files
 //	gen      writes coq/theories/gen/Gen_SkipKinds.v from the Go sources
 //
@@ -24,7 +25,7 @@ import (
 )
 
 func main() {
-	mode := flag.String("mode", "match", "match|exclude|skip|reuse|inspect|cli|gen")
+	mode := flag.String("mode", "match", "match|exclude|skip|reuse|inspect|policy|cli|gen")
 	tier := flag.String("tier", "quick", "quick|thorough")
 	outDir := flag.String("out", "", "output directory")
 	flag.Parse()
@@ -52,6 +53,8 @@ func main() {
 		runReuse(w, *tier)
 	case "inspect":
 		runInspect(w, *tier)
+	case "policy":
+		runPolicy(w, *tier)
 	case "cli":
 		runCLI(w, *tier)
 	default:
